@@ -21,7 +21,7 @@ for p in props:
         'evidence_file': f'evidence/{pid}.json',
         'replay_cmd_template': './check --replay {path}',
         'engine': 'pv',
-        'level_claimed': {'category': meta['level'], 'text': meta['explanation'], 'design_ref': f'DESIGN.md section 4 / {pid}'},
+        'level_claimed': {'category': meta['level'], 'text': meta['explanation'], 'design_ref': f'DESIGN.md sections 4 (plan) and 10.5 (as built) / {pid}'},
         'level_note': meta.get('level_note', '; '.join(meta.get('trusted_base', []))),
         'technique': meta.get('technique', 'contract-based deductive verification: VCs generated from the real source (ast -> z3), discharged by z3/cvc5; bounded stand-ins labelled'),
     })
